@@ -291,6 +291,9 @@ Definition remove_member (s : state) (k : nat) : state :=
 Definition set_member_wait (s : state) (k : nat) : state :=
   s <| members := map (fun m => if m_key m =? k then mkMem (m_key m) (m_id m) (m_int m) MWait else m) (members s) |>.
 
+Definition is_waiting_b (s : state) (i : nat) : bool :=
+  existsb (fun m => match m_id m, m_st m with Some j, MWait => j =? i | _, _ => false end) (members s).
+
 Definition lookup {A} (k : nat) (l : list (nat * A)) : option A :=
   match find (fun p => fst p =? k) l with Some p => Some (snd p) | None => None end.
 Definition remove_key {A} (k : nat) (l : list (nat * A)) : list (nat * A) :=
@@ -323,23 +326,34 @@ Definition finish_block (cf : cfg) (s : state) (m : member) (id : nat) (ok : boo
     let s := if m_int m then take_s_tx s else s in
     s <| g_finished := g_finished s ++ [id] |>.
 
+(** A user future resolves (by an external event, or on its first poll when it is in [c_imm]). *)
+Definition complete (s : state) (i : nat) (ok : bool) : state :=
+  s <| completed := completed s ++ [(i, ok)] |> <| trace := trace s ++ [End i ok] |>.
+
+(** First poll of a block that carries a function: the user closure is called (**Start**). The
+    `_mut` paths take a per-function lock with `try_write().expect(..)`. *)
+Definition start_block (cf : cfg) (s : state) (m : member) (id : nat) : state :=
+  let s := if c_mut cf && is_waiting_b s id then set_panic PTryWrite s else s in
+  set_member_wait (s <| trace := trace s ++ [Start id] |>) (m_key m).
+
+(** A block whose user future has resolved runs to its end. *)
+Definition resume_block (cf : cfg) (s : state) (m : member) (id : nat) : state * bool :=
+  match lookup id (completed s) with
+  | Some ok => (finish_block cf (s <| completed := remove_key id (completed s) |>) m id ok, true)
+  | None => (s, false)
+  end.
+
 (** One poll of an item's block; the flag says whether it returned `Ready`. *)
 Definition block_poll (cf : cfg) (s : state) (m : member) : state * bool :=
   match m_st m, m_id m with
   | MNew, None => (remove_member (if m_int m then take_s_tx s else s) (m_key m), true)
   | MNew, Some id =>
-    let s := if c_mut cf && existsb (fun m' => match m_id m', m_st m' with Some j, MWait => j =? id | _, _ => false end) (members s)
-             then set_panic PTryWrite s else s in
-    let s := s <| trace := trace s ++ [Start id] |> in
+    let s := start_block cf s m id in
     match lookup id (c_imm cf) with
-    | Some ok => (finish_block cf (s <| trace := trace s ++ [End id ok] |>) m id ok, true)
-    | None => (set_member_wait s (m_key m), false)
-    end
-  | MWait, Some id =>
-    match lookup id (completed s) with
-    | Some ok => (finish_block cf (s <| completed := remove_key id (completed s) |>) m id ok, true)
+    | Some ok => resume_block cf (complete s id ok) m id
     | None => (s, false)
     end
+  | MWait, Some id => resume_block cf s m id
   | MWait, None => (s, false)
   end.
 
@@ -436,8 +450,7 @@ Inductive event :=
 
 Definition is_none {A} (o : option A) : bool := match o with None => true | Some _ => false end.
 
-Definition is_waiting (s : state) (i : nat) : bool :=
-  existsb (fun m => match m_id m, m_st m with Some j, MWait => j =? i | _, _ => false end) (members s).
+Definition is_waiting (s : state) (i : nat) : bool := is_waiting_b s i.
 
 Definition settle_fuel (cf : cfg) : nat := 2 * c_n cf + 6.
 
@@ -453,10 +466,8 @@ Definition step (cf : cfg) (s : state) (e : event) : state :=
   match e with
   | ECmp i ok =>
     if is_waiting s i && is_none (lookup i (completed s)) then
-      s <| completed := completed s ++ [(i, ok)] |>
-        <| trace := trace s ++ [End i ok] |>
-        <| runq := if mem i (runq s) then runq s else runq s ++ [i] |>
-        <| woken := true |>
+      (complete s i ok) <| runq := if mem i (runq s) then runq s else runq s ++ [i] |>
+                        <| woken := true |>
     else s
   | EInt => s <| ipend := S (ipend s) |>
   | EPoll => poll cf s
